@@ -442,24 +442,42 @@ func checkValidateProbe(c *Ctx) {
 			continue
 		}
 		n++
-		var notNil, lo, hi bool
-		for _, a := range rp.Atoms {
-			nn := a.Norm()
-			s := nn.Cond.String()
-			switch {
-			case !nn.Sign && s == "(param:probe == nil)":
-				notNil = true
-			case !nn.Sign && s == "(param:probe.TTL < recv.MinTTL)":
-				lo = true
-			case !nn.Sign && s == "(param:probe.TTL > recv.MaxTTL)":
-				hi = true
-			case nn.Sign && s == "(param:probe.TTL >= recv.MinTTL)":
-				lo = true
-			case nn.Sign && s == "(param:probe.TTL <= recv.MaxTTL)":
-				hi = true
+		for _, atoms := range openPredicates(c.P, "common", rp.Atoms) {
+			if !core.Feasible(atoms) {
+				continue
 			}
+			var notNil, lo, hi bool
+			for _, a := range atoms {
+				nn := a.Norm()
+				if !nn.Sign && nn.Cond.String() == "(param:probe == nil)" {
+					notNil = true
+					continue
+				}
+				// any orientation of the two range comparisons: normalise to  probe.TTL REL bound  being true
+				t := nn.Cond
+				if t.Op != "binop" || len(t.Args) != 2 {
+					continue
+				}
+				x, y, op := t.Args[0].StripConv().String(), t.Args[1].StripConv().String(), t.Name
+				if y == "param:probe.TTL" {
+					x, y = y, x
+					op = map[string]string{"<": ">", "<=": ">=", ">": "<", ">=": "<="}[op]
+				}
+				if x != "param:probe.TTL" || op == "" {
+					continue
+				}
+				if !nn.Sign {
+					op = map[string]string{"<": ">=", "<=": ">", ">": "<=", ">=": "<"}[op]
+				}
+				switch {
+				case op == ">=" && y == "recv.MinTTL":
+					lo = true
+				case op == "<=" && y == "recv.MaxTTL":
+					hi = true
+				}
+			}
+			R.Check(notNil && lo && hi, "R03.5", core.FuncName(f)+"#accept", rp.Ret.Pos(), core.FuncName(f), "accepts only probe != nil with MinTTL <= TTL <= MaxTTL", "accepting path lacks one of: probe != nil, TTL >= MinTTL, TTL <= MaxTTL; atoms: "+strings.Join(atomsString(atoms), " ∧ "))
 		}
-		R.Check(notNil && lo && hi, "R03.5", core.FuncName(f)+"#accept", rp.Ret.Pos(), core.FuncName(f), "accepts only probe != nil with MinTTL <= TTL <= MaxTTL", "accepting path lacks one of: probe != nil, TTL >= MinTTL, TTL <= MaxTTL; atoms: "+strings.Join(atomsString(rp.Atoms), " ∧ "))
 	}
 	R.Floor("R03.5:validateProbe-accept-paths", n, 1)
 }
@@ -577,6 +595,7 @@ func checkEntryHops(c *Ctx) {
 //   - an ascending scan: every assignment of D must leave the loop at once (first hit wins) or be guarded by "D not yet set";
 //   - a descending scan: must run to exhaustion (the last assignment is the lowest index); any other exit leaves lower indices
 //     unexamined, and an exit right after a hit makes the HIGHEST index win.
+//
 // A form outside these is reported as information only (not decided): correct rewrites exist that no shape rule can foresee.
 func checkClipSearch(c *Ctx) {
 	R := c.R
